@@ -56,20 +56,49 @@ def run(ctx):
                     failures.append(Failure("oracle", f"c05:corpus:{k}:{r[k].split(':')[0]}", f"{name}: {k} = {r[k]}", {"op": "compile", "src": s}, "ok", r[k]))
         elif r and r.get("stage") == "panic":
             failures.append(Failure("oracle", "c05:corpus:compile-panics", f"{name}: {r.get('detail')}", {"op": "compile", "src": s}, "circuit or error", r.get("detail")))
+    # (d) array sizes, trip counts and parties given by constants (the generator of C12): shape of the circuit compiled with the constants
+    from . import c12, gen_prog
+    ccases = [c12.gen_size_case(ctx.rng.randrange(1 << 48), i) for i in range(150 if quick else 3000)]
+    cres = common.run_lines_guarded(common.GVH, [
+        {"id": c["id"], "op": "compile_eval", "src": c["src_a"], "kind": "ssa", "dedup": True, "consts": c["cg"].consts_json(),
+         "inputs": [(["".join(gen_prog.party_inputs(c["params"], a))] if c.get("one_party") else gen_prog.party_inputs(c["params"], a)) for a in c["args"][:1]]}
+        for c in ccases], per_case_timeout=20.0)
+    ctally = {"compiled": 0}
+    for c in ccases:
+        r = cres.get(c["id"]) or {}
+        sub = {"op": "c12", "seed": c["seed"], "kind": c["kind"], "src": c["src_a"], "consts": c["cg"].consts_json()}
+        ctally[c["kind"]] = ctally.get(c["kind"], 0) + 1
+        if not r.get("ok"):
+            what = "panics in the compiler" if r.get("stage") == "panic" else f"is rejected ({r.get('stage')})"
+            failures.append(Failure("oracle", f"c05:const-sized:{r.get('stage')}:{c['kind']}", f"a well-typed program with constant-sized arrays {what}: {str(r.get('detail'))[:200]}", sub, "a circuit", r))
+            continue
+        ctally["compiled"] += 1
+        want = [T.size_of(t) for _, t in c["params"]]
+        if len(c["params"]) == 1 and c["params"][0][1]["k"] == "array":
+            want = [sum(want)] if c.get("one_party") else [T.size_of(c["params"][0][1]["elem"])] * c["params"][0][1]["n"]
+        if r["validate"] != "ok":
+            failures.append(Failure("oracle", "c05:const-sized:invalid-circuit:" + r["validate"].split(":")[0], f"the circuit compiled with constants fails its own validation: {r['validate']}", sub, "ok", r["validate"]))
+        if r["input_gates"] != want:
+            failures.append(Failure("oracle", "c05:const-sized:input-shape:" + c["kind"], f"input parties {r['input_gates']} but the parameter types (sizes from the constants) need {want}", sub, want, r["input_gates"]))
+        if r["out_len"] != 161 + T.size_of(c["ret"]):
+            failures.append(Failure("oracle", "c05:const-sized:output-shape:" + c["kind"], f"{r['out_len']} output wires for 161 panic bits + a return type of {T.size_of(c['ret'])} bits (sizes from the constants)", sub, 161 + T.size_of(c["ret"]), r["out_len"]))
     seen, uniq = set(), []
     for f in failures:
         if f.signature not in seen:
             seen.add(f.signature); uniq.append(f)
     coverage = {
-        "evaluations": tally["value"] + tally["panic"] + ztally["value"] + ztally["panic"] + n_corpus,
+        "evaluations": tally["value"] + tally["panic"] + ztally["value"] + ztally["panic"] + n_corpus + ctally["compiled"],
         "distinct_nontrivial": len(cases) - tally["rejected"],
         "rule": "(a) generated well-typed programs with all literal types written out (tools/gv/gen_prog.py): must be accepted, compile "
                 "without a panic in 4 circuit configurations, pass Circuit::validate, have one input party per parameter (one per "
                 "element for a single array parameter) of exactly the type's size and 161 + size(return type) outputs, and return "
                 "the bits of a value of the return type (the one the Lean source semantics compute); (b) the same with types of 0 "
-                "bits; (c) every corpus program that compiles validates as SSA and as register circuit. non-trivial = accepted "
-                "generated programs",
-        "distribution": {"runs": tally, "zero_size_runs": ztally, "corpus_programs_compiled": n_corpus, "generator": stats},
+                "bits; (c) every corpus program that compiles validates as SSA and as register circuit; (d) programs whose array sizes, "
+                "trip counts and parties come from constants (external values, constant expressions, `[T; const { .. }]`, `[x; N]`, "
+                "`[7; N]` with a number without a suffix in a typed position), compiled with generated constant values: accepted, no "
+                "compiler panic, valid, input parties and 161 + size(return type) outputs as the types with the sizes filled in "
+                "require. non-trivial = accepted generated programs",
+        "distribution": {"runs": tally, "zero_size_runs": ztally, "corpus_programs_compiled": n_corpus, "const_sized": ctally, "generator": stats},
         "samples": [{"src": cases[0]["src"]}, {"src": zcases[0]["src"]}],
     }
     return common.finish(ctx, uniq, coverage, ["programs of nesting depth <= 3, arrays of at most 4 elements"], "proof", search=None)
